@@ -1,6 +1,7 @@
 pub mod gen;
 mod algs;
 mod misc;
+mod text;
 
 use crate::Ctx;
 
@@ -14,6 +15,14 @@ pub fn run(suite: &str, ctx: &mut Ctx) {
         "cost" => algs::suite_cost(ctx),
         "group" => misc::suite_group(ctx),
         "changes" => misc::suite_changes(ctx),
+        "tok" => text::suite_tok(ctx),
+        "text" => text::suite_text(ctx),
+        "udiff" => text::suite_udiff(ctx),
+        "inline" => text::suite_inline(ctx),
+        "remap" => text::suite_remap(ctx),
+        "close" => text::suite_close(ctx),
+        "identify" => text::suite_identify(ctx),
+        "determinism" => text::suite_determinism(ctx),
         _ => panic!("unknown suite {}", suite),
     }
 }
@@ -24,6 +33,7 @@ pub fn replay(line: &str) {
     match head {
         "diff" | "capture" | "script" => algs::replay(line),
         "group" | "changes" | "allchanges" | "ratio" => misc::replay(line),
+        "tok" | "ws" | "text" | "udiff" | "inline" | "remap" | "close" | "identify" => text::replay(line),
         _ => println!("unknown request kind {}", head),
     }
 }
